@@ -670,6 +670,11 @@ func opDiscardTs(r *Run, cl *clientState, idx int, op *Op) {
 	}
 	r.mu.Lock()
 	ts := op.Ts
+	for p := range r.pendingMts {
+		if ts >= p {
+			ts = p - 1 // stay below commits that are on their way to the oracle
+		}
+	}
 	if ts < r.discardTs {
 		ts = r.discardTs
 	}
@@ -698,6 +703,7 @@ func opManagedBatch(r *Run, cl *clientState, idx int, op *Op) {
 	var at uint64
 	if op.N == 1 {
 		at = r.managedCommitTs(op.Ts)
+		defer r.managedCommitDone(at)
 		wb = r.db.NewWriteBatchAt(at)
 	} else {
 		wb = r.db.NewManagedWriteBatch()
